@@ -7,6 +7,19 @@ Require Import Translated.
 Definition is_ok {A} (o : outcome A) : bool := match o with Ok _ => true | _ => false end.
 Definition is_some {A} (o : option A) : bool := match o with Some _ => true | None => false end.
 
+(* finite case analysis on every scrutinee: robust against reordered or regrouped guards in the source *)
+Ltac cases :=
+  repeat (match goal with
+          | |- context [if negb ?c then _ else _] => destruct c eqn:?
+          | |- context [if ?a || ?b then _ else _] => destruct a eqn:?; destruct b eqn:?
+          | |- context [match ?x with _ => _ end] =>
+              lazymatch x with
+              | context [match _ with _ => _ end] => fail
+              | _ => destruct x eqn:?
+              end
+          end; cbn [negb andb orb is_ok is_some] in *);
+  try reflexivity; try discriminate; try congruence; try lia.
+
 (* TIE: Record_accepted *)
 Theorem Record_tie s h sender tid req denom amount chain contract tokhex t :
   find_tenant (s_tenants s) tid = Some t ->
@@ -16,15 +29,7 @@ Theorem Record_tie s h sender tid req denom amount chain contract tokhex t :
     (negb (is_ok (get_recipients s chain contract tokhex)))
     (is_some (idx_get (s_idx s) tid req)).
 Proof.
-  intros Hf m. unfold Record_accepted, handle. subst m.
-  destruct (validate_basic _); cbn [negb]; [|reflexivity].
-  destruct (is_admin s tid sender); cbn [negb]; [|reflexivity].
-  rewrite Hf.
-  destruct (bytes_eqb (t_denom t) denom); cbn [negb]; [|reflexivity].
-  destruct (t_period t =? 0); [reflexivity|].
-  destruct (get_recipients s chain contract tokhex) as [rs| |]; cbn [is_ok negb]; try reflexivity.
-  unfold create_utxr. cbn [u_req].
-  destruct (idx_get (s_idx s) tid req); reflexivity.
+  intros Hf m. unfold Record_accepted, handle, create_utxr. subst m. cbn [u_req]. rewrite Hf. cases.
 Qed.
 
 (* without the tenant the admin check already fails *)
@@ -42,10 +47,7 @@ Theorem Cancel_tie s h sender tid req :
   Cancel_accepted false (is_some (find_tenant (s_tenants s) tid)) (is_admin s tid sender)
     (negb (is_some (idx_get (s_idx s) tid req))).
 Proof.
-  unfold Cancel_accepted, handle. cbn [validate_basic negb].
-  destruct (find_tenant (s_tenants s) tid); cbn [is_some negb]; [|reflexivity].
-  destruct (is_admin s tid sender); cbn [negb]; [|reflexivity].
-  destruct (idx_get (s_idx s) tid req); reflexivity.
+  unfold Cancel_accepted, handle. cbn [validate_basic]. cases.
 Qed.
 
 (* TIE: AddAdmin_guards *)
@@ -54,10 +56,7 @@ Theorem AddAdmin_tie s h sender tid admin :
   AddAdmin_guards false (is_admin s tid sender) (negb (is_some (find_tenant (s_tenants s) tid)))
   && match find_tenant (s_tenants s) tid with Some t => negb (memZ admin (t_admins t)) | None => false end.
 Proof.
-  unfold AddAdmin_guards, handle. cbn [validate_basic negb].
-  destruct (is_admin s tid sender); cbn [negb]; [|reflexivity].
-  destruct (find_tenant (s_tenants s) tid) as [t|]; cbn [is_some negb andb]; [|reflexivity].
-  destruct (memZ admin (t_admins t)); reflexivity.
+  unfold AddAdmin_guards, handle. cbn [validate_basic]. cases.
 Qed.
 
 (* TIE: RemoveAdmin_guards RemoveAdmin_last *)
@@ -69,11 +68,7 @@ Theorem RemoveAdmin_tie s h sender tid admin :
      | None => false
      end.
 Proof.
-  unfold RemoveAdmin_guards, RemoveAdmin_last, handle. cbn [validate_basic negb].
-  destruct (is_admin s tid sender); cbn [negb]; [|reflexivity].
-  destruct (find_tenant (s_tenants s) tid) as [t|]; cbn [is_some negb andb]; [|reflexivity].
-  destruct (memZ admin (t_admins t)); cbn [negb andb]; [|reflexivity].
-  destruct (lenZ (t_admins t) =? 1); reflexivity.
+  unfold RemoveAdmin_guards, RemoveAdmin_last, handle. cbn [validate_basic]. cases.
 Qed.
 
 (* TIE: UpdatePeriod_accepted *)
@@ -82,10 +77,7 @@ Theorem UpdatePeriod_tie s h sender tid period :
   UpdatePeriod_accepted (negb (valid_period_u64 period)) (is_admin s tid sender)
     (negb (is_some (find_tenant (s_tenants s) tid))).
 Proof.
-  unfold UpdatePeriod_accepted, handle. cbn [validate_basic].
-  destruct (valid_period_u64 period); cbn [negb]; [|reflexivity].
-  destruct (is_admin s tid sender); cbn [negb]; [|reflexivity].
-  destruct (find_tenant (s_tenants s) tid); reflexivity.
+  unfold UpdatePeriod_accepted, handle. cbn [validate_basic]. cases.
 Qed.
 
 (* the depositor's account exists and the bank send succeeds whenever the spendable balance covers the amount
@@ -99,10 +91,5 @@ Theorem Deposit_tie s h sender tid denom amount :
   | None => Deposit_accepted (negb (valid_coin denom amount)) true false false 0 amount false
   end.
 Proof.
-  unfold Deposit_accepted, handle. cbn [validate_basic].
-  destruct (valid_coin denom amount); cbn [negb].
-  - destruct (find_tenant (s_tenants s) tid) as [t|]; [|reflexivity].
-    destruct (t_method t =? 0); cbn [negb]; [|reflexivity].
-    destruct (bal_get (s_bal s) sender denom <? amount); reflexivity.
-  - destruct (find_tenant (s_tenants s) tid); reflexivity.
+  unfold Deposit_accepted, handle. cbn [validate_basic]. cases.
 Qed.
